@@ -203,12 +203,43 @@ PROTOS = (None, "P1", "P2")
 SUBSET, CSPEC, PSTACK = "CS15", "CSPEC15", "PS15"
 
 
+# Variants of the specification of CP_UniqueRespIdTable (one variant per database).  A sub-parameter is (name, default) or
+# (name, [nested sub-parameters]) for a nested COMPLEX-COMPARAM; its slot in a COMPLEX-VALUE is a nested COMPLEX-VALUE.
+_NESTED = ("CP_AddrFormat", [("CP_AddrBits", "11"), ("CP_ExtAddr", "0")])
+_FLAT = COMPLEX["CP_UniqueRespIdTable"]["subs"]
+VARIANTS: Dict[str, List[Tuple[str, Any]]] = {
+    "flat": list(_FLAT),
+    "nested-first": [_NESTED] + list(_FLAT),
+    "nested-later": [_FLAT[0], _NESTED] + list(_FLAT[1:]),
+}
+
+
 def is_complex(param: str) -> bool:
     return param in COMPLEX
 
 
-def sub_names(param: str) -> List[str]:
-    return [s for s, _ in COMPLEX[param]["subs"]]
+def complex_subs(param: str, variant: str = "flat") -> List[Tuple[str, Any]]:
+    assert param == "CP_UniqueRespIdTable"
+    return VARIANTS[variant]
+
+
+def sub_names(param: str, variant: str = "flat") -> List[str]:
+    """Names of the top-level sub-parameters (slots of the COMPLEX-VALUE), nested ones included."""
+    return [s for s, _ in complex_subs(param, variant)]
+
+
+def simple_sub_names(param: str, variant: str = "flat") -> List[str]:
+    return [s for s, d in complex_subs(param, variant) if isinstance(d, str)]
+
+
+# instance modes: bit 0 = value omitted (complex: one slot omitted), bit 1 = the COMPARAM-REF also carries a PROT-STACK-SNREF
+M_GIVEN, M_OMIT, M_STACK, M_OMIT_STACK = 0, 1, 2, 3
+
+
+def is_canfd_instance(layer: int, proto: Optional[str]) -> bool:
+    """Whether a GIVEN value of CP_CANFDTxMaxDataLength says CAN-FD ('CANFD TX_DL=n') or classic CAN ('CAN TX_DL=n'):
+    alternates with layer and qualifier so that definitions for different protocols disagree."""
+    return (layer + PROTOS.index(proto)) % 2 == 0
 
 
 # ---------------------------------------------------------------------------------------------
@@ -220,26 +251,31 @@ KINDS: Tuple[Tuple[Optional[str], ...], ...] = ((), (None,), ("P1",), ("P2",), (
 KIND_NAME = {(): "absent", (None,): "generic", ("P1",): "P1", ("P2",): "P2", (None, "P1"): "generic+P1"}
 
 
-def layer_placements(modes: int = 2, uniform: bool = False) -> List[Tuple[Tuple[Optional[str], int], ...]]:
-    """All placements of a parameter in one layer: kind x mode per instance.  modes=2 -> 11 placements; uniform: the two
-    instances of a generic+P1 pair have the same mode -> 9 placements."""
+def _modes(modes: Any) -> Tuple[int, ...]:
+    return tuple(range(modes)) if isinstance(modes, int) else tuple(modes)
+
+
+def layer_placements(modes: Any = 2, uniform: bool = False) -> List[Tuple[Tuple[Optional[str], int], ...]]:
+    """All placements of a parameter in one layer: kind x mode per instance.  modes: a count (2 -> given / omitted, 11
+    placements; 4 -> x with / without PROT-STACK-SNREF, 29 placements) or an explicit tuple of modes; uniform: the two
+    instances of a generic+P1 pair have the same mode (9 placements for 2 modes)."""
     out = []
     for kind in KINDS:
-        for ms in itertools.product(range(modes), repeat=len(kind)):
+        for ms in itertools.product(_modes(modes), repeat=len(kind)):
             if uniform and len(set(ms)) > 1:
                 continue
             out.append(tuple(zip(kind, ms)))
     return out
 
 
-def placements(types: Sequence[str], modes: int = 2, uniform: bool = False
+def placements(types: Sequence[str], modes: Any = 2, uniform: bool = False
                ) -> Iterator[Tuple[Tuple[Tuple[Optional[str], int], ...], ...]]:
     """All placement vectors for a hierarchy (shared-data layers cannot carry communication parameters)."""
     per = layer_placements(modes, uniform)
     return itertools.product(*[(per if t != ESD else [()]) for t in types])
 
 
-def n_placements(types: Sequence[str], modes: int = 2, uniform: bool = False) -> int:
+def n_placements(types: Sequence[str], modes: Any = 2, uniform: bool = False) -> int:
     k = len(layer_placements(modes, uniform))
     n = 1
     for t in types:
@@ -255,34 +291,56 @@ def instance_value(layer: int, proto: Optional[str], pidx: int, sub: int = 0) ->
     return 100000 + layer * 10000 + q * 1000 + pidx * 10 + sub
 
 
+def complex_values(layer: int, proto: Optional[str], pidx: int, subs: Sequence[Tuple[str, Any]], omitted: Optional[int]) -> List[Any]:
+    """Slots of a COMPLEX-VALUE: a string per simple sub-parameter, a list per nested one; slot `omitted` is left out
+    (for a nested slot: its first inner value)."""
+    out: List[Any] = []
+    n = 0
+    for k, (_, d) in enumerate(subs):
+        if isinstance(d, str):
+            n += 1
+            out.append(None if k == omitted else str(instance_value(layer, proto, pidx, n)))
+        else:
+            inner = [str(instance_value(layer, proto, pidx, 5 + j)) for j in range(len(d))]
+            if k == omitted:
+                inner[0] = None  # type: ignore[call-overload]
+            out.append(inner)
+    return out
+
+
+def simple_text(param: str, layer: int, proto: Optional[str], pidx: int) -> str:
+    v = str(instance_value(layer, proto, pidx))
+    if SIMPLE[param].get("text"):
+        return ("CANFD" if is_canfd_instance(layer, proto) else "CAN") + f" TX_DL={v}"
+    return v
+
+
 def make_instances(placement: Sequence[Sequence[Tuple[Optional[str], int]]], params: Sequence[str],
-                   pfirst: bool = False, placement2: Optional[Sequence[Sequence[Tuple[Optional[str], int]]]] = None
-                   ) -> List[List[Dict[str, Any]]]:
+                   pfirst: bool = False, placement2: Optional[Sequence[Sequence[Tuple[Optional[str], int]]]] = None,
+                   params2: Optional[Sequence[str]] = None, variant: str = "flat") -> List[List[Dict[str, Any]]]:
     """Instances per layer, in document order.  Every parameter of `params` is instantiated at the same placement
-    (placement2, if given, is used for the complex parameters instead).  pfirst: protocol-specific instances are
-    written before the generic ones (document order is not meaningful in ODX; both orders are enumerated)."""
+    (placement2, if given, is used for the parameters of params2 -- default: the complex ones -- instead).  pfirst:
+    protocol-specific instances are written before the generic ones (document order is not meaningful in ODX; both
+    orders are enumerated)."""
     out: List[List[Dict[str, Any]]] = []
     for li in range(len(placement)):
         insts: List[Dict[str, Any]] = []
         for param in params:
             pidx = ALL.index(param)
-            pl = placement[li] if (placement2 is None or not is_complex(param)) else placement2[li]
+            second = placement2 is not None and (is_complex(param) if params2 is None else param in params2)
+            pl = placement2[li] if second else placement[li]  # type: ignore[index]
             pl = sorted(pl, key=lambda pm: (pm[0] is None) if pfirst else (pm[0] is not None))
             for proto, mode in pl:
                 inst: Dict[str, Any] = {"layer": li, "param": param, "proto": proto,
                                         "tag": f"i{li}.{pidx}.{proto or 'G'}"}
+                if mode & M_STACK:
+                    inst["pstack"] = PSTACK
                 if is_complex(param):
-                    nsub = len(COMPLEX[param]["subs"])
-                    omitted = None if mode == 0 else (li + PROTOS.index(proto) + mode - 1) % nsub
-                    inst["subs"] = [None if k == omitted else str(instance_value(li, proto, pidx, k + 1)) for k in range(nsub)]
+                    subs = complex_subs(param, variant)
+                    omitted = None if not mode & M_OMIT else (li + PROTOS.index(proto)) % len(subs)
+                    inst["subs"] = complex_values(li, proto, pidx, subs, omitted)
                 else:
-                    if mode == 0:
-                        v = str(instance_value(li, proto, pidx))
-                        if SIMPLE[param].get("text"):
-                            v = f"CANFD TX_DL={instance_value(li, proto, pidx)}"
-                        inst["value"] = v
-                    else:
-                        inst["value"] = None
+                    inst["value"] = None if mode & M_OMIT else simple_text(param, li, proto, pidx)
                 insts.append(inst)
         out.append(insts)
     return out
@@ -378,14 +436,20 @@ def effective_value(inst: Dict[str, Any]) -> str:
     return SIMPLE[inst["param"]]["default"] if v is None else v
 
 
-def effective_subvalue(inst: Dict[str, Any], sub: str) -> Optional[str]:
-    """None if the complex parameter has no such sub-parameter."""
-    names = sub_names(inst["param"])
+def effective_subvalue(inst: Dict[str, Any], sub: str, variant: str = "flat") -> Optional[str]:
+    """None if the complex parameter has no such sub-parameter.  Only for simple sub-parameters."""
+    names = sub_names(inst["param"], variant)
     if sub not in names:
         return None
     k = names.index(sub)
     v = inst["subs"][k]
-    return COMPLEX[inst["param"]]["subs"][k][1] if v is None else v
+    d = complex_subs(inst["param"], variant)[k][1]
+    assert isinstance(d, str), "nested sub-parameters are not read as strings"
+    return d if v is None else v
+
+
+def says_canfd(inst: Dict[str, Any]) -> bool:
+    return "CANFD" in effective_value(inst)
 
 
 def numeric(conv: str, text: str) -> Any:
@@ -409,7 +473,7 @@ for _n, _d in COMPLEX.items():
         ACCESSORS[_a] = (_n, _s, "int")
 
 
-def accessor_expectation(acc: str, inst: Optional[Dict[str, Any]]) -> Tuple[str, Any]:
+def accessor_expectation(acc: str, inst: Optional[Dict[str, Any]], variant: str = "flat") -> Tuple[str, Any]:
     """inst = the instance the lookup yields for the accessor's parameter (None: no such parameter).
     -> ("must", value) | ("dontcare", None)."""
     param, sub, conv = ACCESSORS[acc]
@@ -418,7 +482,20 @@ def accessor_expectation(acc: str, inst: Optional[Dict[str, Any]]) -> Tuple[str,
             return "dontcare", None  # 8 for a CAN bus without the parameter, None otherwise: a convention, not content
         return "must", None
     if acc == "get_can_fd_baudrate":
-        return "dontcare", None  # additionally conditional on two other parameters (uses_can_fd); judged in the check
-    text = effective_value(inst) if sub is None else effective_subvalue(inst, sub)
+        return "dontcare", None  # conditional on two other parameters (uses_can_fd): see can_fd_expectation
+    text = effective_value(inst) if sub is None else effective_subvalue(inst, sub, variant)
     assert text is not None
     return "must", numeric(conv, text)
+
+
+def can_fd_expectation(table: Optional[Dict[str, Any]], frame: Optional[Dict[str, Any]], baud: Optional[Dict[str, Any]]
+                       ) -> Dict[str, Any]:
+    """The CAN / CAN-FD gate for ONE protocol query.  table / frame / baud: the instances CP_UniqueRespIdTable,
+    CP_CANFDTxMaxDataLength and CP_CANFDBaudrate resolve to FOR THAT QUERY (None: not defined).
+    uses_can: the response-id table gives a request id (ours always has an effective one); uses_can_fd: additionally the
+    frame-size parameter is defined and its effective value says CANFD; get_can_fd_baudrate: the number of the effective
+    CP_CANFDBaudrate if CAN-FD is in use and the parameter is defined, else None."""
+    uses_can = table is not None
+    uses_fd = uses_can and frame is not None and says_canfd(frame)
+    rate = numeric("int", effective_value(baud)) if (uses_fd and baud is not None) else None
+    return {"uses_can": uses_can, "uses_can_fd": uses_fd, "get_can_fd_baudrate": rate}
